@@ -486,6 +486,33 @@ def fs_response_unpack(data: Bytes):
             ensures("packet_len", g.packet_len == len(r))
 
 
+@obligation(["C08", "C10"], "FileStoreRequestTlv.from_tlv/any", verifies=[T + "FileStoreRequestTlv.from_tlv", T + "FileStoreRequestTlv._set_fields",
+                                                                    T + "FileStoreRequestBase._common_unpacker"])
+def fs_request_from_tlv_any(t: EnumOf(TlvType), v: BytesLen(0, 255)):
+    """conversion of a generic TLV with arbitrary value: documented errors only, and the same answer as decoding its octets"""
+    o = outcome(FileStoreRequestTlv.from_tlv, CfdpTlv(t, v))
+    ensures("raises-only", o.ok or o.raised(ValueError, TlvTypeMissmatch))
+    ensures("mismatch-iff", o.raised(TlvTypeMissmatch) == (t != TlvType.FILESTORE_REQUEST))
+    if t == TlvType.FILESTORE_REQUEST:
+        u = outcome(FileStoreRequestTlv.unpack, tlv(0, v))
+        ensures("agrees-with-unpack", o.ok == u.ok)
+        if o.ok and u.ok:
+            ensures("agrees-with-unpack-state", same_state(o.value, u.value))
+
+
+@obligation(["C08", "C10"], "FileStoreResponseTlv.from_tlv/any", verifies=[T + "FileStoreResponseTlv.from_tlv", T + "FileStoreResponseTlv._set_fields",
+                                                                     T + "FileStoreRequestBase._common_unpacker"])
+def fs_response_from_tlv_any(t: EnumOf(TlvType), v: BytesLen(0, 255)):
+    o = outcome(FileStoreResponseTlv.from_tlv, CfdpTlv(t, v))
+    ensures("raises-only", o.ok or o.raised(ValueError, TlvTypeMissmatch))
+    ensures("mismatch-iff", o.raised(TlvTypeMissmatch) == (t != TlvType.FILESTORE_RESPONSE))
+    if t == TlvType.FILESTORE_RESPONSE:
+        u = outcome(FileStoreResponseTlv.unpack, tlv(1, v))
+        ensures("agrees-with-unpack", o.ok == u.ok)
+        if o.ok and u.ok:
+            ensures("agrees-with-unpack-state", same_state(o.value, u.value))
+
+
 @obligation(["C08", "C09", "C10"], "FileStoreRequestTlv/roundtrip", verifies=[T + "FileStoreRequestTlv.unpack", T + "FileStoreRequestTlv.from_tlv"])
 def fs_request_roundtrip(action: EnumOf(FilestoreActionCode), n1: StrLen(255), n2: StrLen(255), suffix: Bytes, cut: Int):
     a = FileStoreRequestTlv(action, n1, n2)
